@@ -8,6 +8,7 @@ address modes) are hand-written models tied to the real code by the harness (hoo
 import Wz.Proofs.C02_Interp
 import Wz.Proofs.C02_Amode
 import Wz.Proofs.C02_SafeBounds
+import Wz.Gen.FrontendReload
 
 namespace Wz.C02
 open Wz.Gen.Memory Wz.Gen.InterpAddr Wz.Model.MemAccess
@@ -418,5 +419,24 @@ example :
 open Wz.Model.SafeBounds in
 /-- (test) an out-of-range access traps and ends the path. -/
 example : run (fun _ => 65533) [.access 0 0 4] (init 1000 65536) = some [.trap 0 4] := by decide
+
+
+/-! ### what the `call` step of `Wz.Model.SafeBounds` assumes about the front end (regenerated) -/
+
+/-- **Regenerated obligation** (frontend/lower.go).  The model's `.call` step re-reads BOTH SSA variables
+(memory base and length) and drops the cached absolute addresses.  The code does that after every call form:
+`reloadAfterCall` is invoked by all four call lowerings and calls `reloadMemoryBaseLen` unless the memory is
+shared; `reloadMemoryBaseLen` forces both reloads and resets the addresses, in this order; `memory.grow`
+reloads directly; and the only other way to skip a reload of the length is the shared-memory case, in which the
+length is never answered from the cache at all. -/
+theorem frontend_reload_shape :
+    Wz.Gen.FrontendReload.reloadGuard = "c.needMemory && !c.memoryShared" ∧
+    Wz.Gen.FrontendReload.reloadStatements =
+      ["c.getMemoryBaseValue(true)", "c.getMemoryLenValue(true)", "c.resetAbsoluteAddressInSafeBounds()"] ∧
+    Wz.Gen.FrontendReload.baseCacheGuard = "!forceReload" ∧
+    Wz.Gen.FrontendReload.lenCacheGuard = "!forceReload && !c.memoryShared" ∧
+    Wz.Gen.FrontendReload.reloadAfterCallCallers =
+      ["lowerCall", "lowerCallIndirect", "lowerTailCallReturnCall", "lowerTailCallReturnCallIndirect"] ∧
+    Wz.Gen.FrontendReload.reloadDirectCallers = ["lowerCurrentOpcode"] := by decide
 
 end Wz.C02
